@@ -59,7 +59,7 @@ def gen_case(rng, tier, idx):
         rules = [[m] for m in mk]
     for j, tg in enumerate(rules):
         cfg["HALT%d" % j] = {"class": "TradingHaltRule", "targetMarkets": tg,
-                             "triggerChangeRate": rng.choice([0.005, 0.01, 0.02, 0.05, 0.0078125, 0.015625, 0.03125]),
+                             "triggerChangeRate": rng.choice([0.0, 0.005, 0.01, 0.02, 0.05, 0.0078125, 0.015625, 0.03125]),
                              "haltingTimeLength": rng.choice([0, 1, 2, 3, 5, 8])}
         if rng.random() < 0.08:
             cfg["HALT%d" % j]["enabled"] = False
